@@ -371,6 +371,12 @@ class Check:
                 knobs = {"include_nmne": True, "capture_nmne": True}
             specs.append({"name": f"gen-{sd}", "kind": "env", "src": ["gen", {"seed": sd, "knobs": knobs}], "policy": pols[s % 4], "seed": sd,
                           "episodes": 2, "steps": 40 if q else 96})
+        # file-system histories spanning several steps (delete now, restore / delete again later through terminal commands), access and
+        # creation / deletion counters observed, nested and flattened
+        for s in range(16 if q else 64):
+            sd = seed * 1000 + 400 + s
+            specs.append({"name": f"gen-fscycle-{sd}", "kind": "env", "src": ["gen", {"seed": sd, "knobs": {"include_num_access": True, "flatten": bool(s % 2)}}],
+                          "policy": "fscycle", "seed": sd, "episodes": 2, "steps": 50 if q else 96})
         return specs
 
     def run_case(self, spec):
